@@ -90,6 +90,7 @@ func (p *termProfile) Run(s *Sim) {
 	p.k.ReadyDelayMax = 10 * time.Second
 	p.k.PStuckPod = []float64{0, 0.1}[ch.Pick("term.pstuck", 2)]
 	p.k.WatchPods()
+	p.k.StartCCM(40 * time.Second)
 	s.store.OnWrite = append(s.store.OnWrite, p.onWrite)
 	s.OnTaskDone(p.onTaskDone)
 	s.AddObserver(p.observe)
